@@ -6,6 +6,7 @@ package chainx
 import (
 	"encoding/binary"
 	"encoding/hex"
+	"strconv"
 	"strings"
 
 	"github.com/gnolang/gno/gnovm/pkg/gnolang"
@@ -117,4 +118,56 @@ func Amount(coins std.Coins, denom string) int64 {
 		}
 	}
 	return n
+}
+
+// ReadKey reads one key of one store ("base" or "main") from the state the next tx would see. Iterators on the
+// memdb-backed stores cost O(size of the whole DB) each; harnesses that know their keys use Get instead.
+func (c *Chain) ReadKey(store, key string) (string, bool) {
+	ms := c.Base.VerifDeliverMultiStore()
+	if ms == nil {
+		ms = c.Base.GetCacheMultiStore()
+	}
+	baseKey, mainKey := c.Base.VerifStoreKeys()
+	k := mainKey
+	if store == "base" {
+		k = baseKey
+	}
+	bz := ms.GetStore(k).Get(nil, []byte(key))
+	if bz == nil {
+		return "", false
+	}
+	return string(bz), true
+}
+
+// BalanceOf re-derives the coins of addr from raw store bytes with direct reads: the account object (account-tier
+// denoms) plus the split-tier balance keys of the listed denoms.
+func (c *Chain) BalanceOf(addr crypto.Address, splitDenoms ...string) std.Coins {
+	items := map[string]string{}
+	if v, ok := c.ReadKey("main", "/a/"+string(addr[:])); ok {
+		items["/a/"+string(addr[:])] = v
+	}
+	for _, d := range splitDenoms {
+		if v, ok := c.ReadKey("main", "/b/"+string(addr[:])+d); ok {
+			items["/b/"+string(addr[:])+d] = v
+		}
+	}
+	return Balances(items)[addr]
+}
+
+// RealmScan reads the realm record and the objects oid:<pkgid>:1..maxN with direct reads.
+func (c *Chain) RealmScan(path string, maxN uint64) (rec RealmRecord, objBytes int64, nObj int) {
+	p := RealmOIDPrefix(path)
+	if v, ok := c.ReadKey("base", p+"1#realm"); ok {
+		rec = DecodeRealm(path, map[string]string{p + "1#realm": v})
+	}
+	if rec.Time > maxN {
+		maxN = rec.Time
+	}
+	for n := uint64(1); n <= maxN+2; n++ {
+		if v, ok := c.ReadKey("base", p+strconv.FormatUint(n, 10)); ok {
+			objBytes += int64(len(v))
+			nObj++
+		}
+	}
+	return
 }
